@@ -49,6 +49,9 @@ func emitTimeRT(cw *caseWriter, zone string, src interface{}) {
 }
 
 func genC14(cw *caseWriter, seed uint64, tier string) {
+	// a slice of the template / row histories (refused imports included) under this property's name: declared columns keep
+	// their declarations (harness/alias.go)
+	genAliasHistories(cw, "C14", newRng(seed+1641), 60)
 	r := newRng(seed)
 	saved := time.Local
 	defer func() { time.Local = saved }()
